@@ -774,7 +774,7 @@ func vC01MidCase(rnd *rand.Rand, r *Resolver, tr *vC01Trace) {
 				genuine = false
 				kinds = append(kinds, "t:forged-untrusted-key")
 			}
-		case 1: // F10 shape: attacker key added to the DNSKEY RRset, RRset re-signed by it, data signed by it
+		case 1: // attacker key added to the DNSKEY RRset, RRset re-signed by it, data signed by it
 			if z.signed && mode < 5 {
 				ak := x.attackerKey(att, z.name, 256)
 				km := x.keys[strings.ToLower(z.name)]
@@ -794,7 +794,7 @@ func vC01MidCase(rnd *rand.Rand, r *Resolver, tr *vC01Trace) {
 					resp.Answer = x.resignAll(resp.Answer, ak, inc, exp)
 					resp.Ns = x.resignAll(resp.Ns, ak, inc, exp)
 					genuine = false
-					x.fkeys["dnskey-rrset-signed-by-non-ds-key"] = true
+					x.tampered = true // since d62d15b the recursion refuses to store such a DNSKEY answer
 					kinds = append(kinds, "t:dnskey-rrset-extra-key")
 				}
 			}
@@ -929,7 +929,7 @@ func vC01MidCase(rnd *rand.Rand, r *Resolver, tr *vC01Trace) {
 	envCoq := x.coqEnv(r, rk, resp, subject, negative || mode >= 5)
 	var body, k, goFail string
 	fkey := ""
-	for _, f := range []string{"unsigned-ds-trust-link", "dnskey-rrset-signed-by-non-ds-key"} {
+	for _, f := range []string{"unsigned-ds-trust-link"} {
 		if x.fkeys[f] {
 			fkey = f
 		}
@@ -998,6 +998,42 @@ func vC01MidCase(rnd *rand.Rand, r *Resolver, tr *vC01Trace) {
 		}
 	}
 	tr.emit(m)
+
+	// verifyDNSSEC on a zone's own DNSKEY answer: genuine, or with a key the DS does not vouch for doing the signing
+	if vz := x.zones[1+rnd.Intn(len(x.zones)-1)]; vz.signed && rnd.Intn(3) == 0 {
+		ak := x.attackerKey(att, vz.name, 256)
+		km := x.newMsg(vz.name, dns.TypeDNSKEY)
+		variant := []string{"genuine", "extra-key-signed-by-it", "extra-key-both-sign", "zsk-signs-only", "attacker-only"}[rnd.Intn(5)]
+		forged := false
+		switch variant {
+		case "genuine":
+			km.Answer = x.sign(vz, vz.ksk, vz.ksk.key, vz.zsk.key)
+		case "extra-key-signed-by-it":
+			km.Answer = x.resignAll([]dns.RR{vz.ksk.key, vz.zsk.key, ak.key}, ak, inc, exp)
+			forged = true
+		case "extra-key-both-sign": // the KSK's own signature covers the set WITHOUT the extra key only
+			set := x.sign(vz, vz.ksk, vz.ksk.key, vz.zsk.key)
+			km.Answer = append(x.resignAll([]dns.RR{vz.ksk.key, vz.zsk.key, ak.key}, ak, inc, exp), set[len(set)-1])
+			forged = true
+		case "zsk-signs-only":
+			km.Answer = x.resignAll([]dns.RR{vz.ksk.key, vz.zsk.key}, vz.zsk, inc, exp)
+		default:
+			km.Answer = x.resignAll([]dns.RR{ak.key}, ak, inc, exp)
+			forged = true
+		}
+		vds := x.w.ds(vz.ksk.key, dns.SHA256)
+		rk2 := vC01RankAll(x.allRR(km, resp)...)
+		rk2 = vC01RankAll(append(x.allRR(km, resp), []dns.RR{vds})...)
+		kmCoq := x.coqMsg(km, rk2)
+		ok, verr := r.verifyDNSSEC(ctx, vz.name, vz.name, km, []dns.RR{vds})
+		rec := map[string]any{"k": "verify-dnskey:" + variant, "nontrivial": true,
+			"coq":  x.w.wrap(x.coqEnv(r, rk2, resp, subject, false) + fmt.Sprintf("CaseVerify E %s %s %s %s %s", x.w.name(vz.name), kmCoq, x.w.coqRRs([]dns.RR{vds}, rk2), vC01Bool(ok), vC01OptErr(verr))),
+			"desc": map[string]any{"zone": vz.name, "variant": variant, "dnskey_answer": vC01Pres(km.Answer), "ds": vC01Pres([]dns.RR{vds}), "ok": ok, "err": fmt.Sprint(verr)}}
+		if ok && forged {
+			rec["go_fail"] = "a DNSKEY RRset holding a key the parent's DS does not vouch for, signed by that key, was accepted"
+		}
+		tr.emit(rec)
+	}
 
 	// auxiliary observations on the same world (fresh abstraction state is not needed: same W)
 	switch rnd.Intn(4) {
